@@ -305,7 +305,7 @@ func cmdCheck(args []string) int {
 			}
 			continue
 		}
-		eng, err := interp.Load(interp.LoadConfig{Dir: filepath.Join(verifRoot, "ws"), Patterns: []string{g.Import}, Overlay: ov, BuildTags: g.Tags, Env: goEnv()})
+		eng, err := interp.Load(interp.LoadConfig{Dir: wsDir(), Patterns: []string{g.Import}, Overlay: ov, BuildTags: g.Tags, Env: goEnv()})
 		if err != nil {
 			fmt.Printf("INCONCLUSIVE property=%s reason=load-failed %v\n", id, err)
 			inconclusive = append(inconclusive, "load failed: "+err.Error())
@@ -632,7 +632,7 @@ func nativeReplay(workDir string, g Group, pkgName string, names []string, harne
 	}
 	args = append(args, g.Import)
 	cmd := exec.Command("go", args...)
-	cmd.Dir = filepath.Join(verifRoot, "ws")
+	cmd.Dir = wsDir()
 	cmd.Env = append(os.Environ(), append(goEnv(), "VERIF_MODEL="+replayPath, "VERIF_HARNESS="+harness)...)
 	out, _ := cmd.CombinedOutput()
 	s := string(out)
